@@ -241,6 +241,16 @@ func forward(st *stats, u *sergen.Universe, si int, s *sergen.Shape, v *sergen.V
 		}
 		return nil
 	}
+	if validation && sergen.HasInvalidUTF8(s, v) {
+		what := fmt.Sprintf("Encode with validation accepted a string that is not valid UTF-8 (oracle: unicode/utf8.Valid); shape %s", short(s.String(), 200))
+		st.violation("forward:encoder-accepted-non-utf8-string-under-validation", what, rec(what, b, nil))
+		return nil
+	}
+	if sergen.StringBoundsViolated(s, v, validation) {
+		what := fmt.Sprintf("Encode accepted a string / byte slice whose byte length lies outside its min/max bounds; shape %s", short(s.String(), 200))
+		st.violation("forward:encoder-accepted-string-outside-bounds", what, rec(what, b, nil))
+		return nil
+	}
 	if !sergen.Representable(s, v) {
 		what := fmt.Sprintf("Encode accepted (%d bytes) a value the documented layout cannot express (a length beyond its prefix width or a uint256 outside [0, 2^256)); shape %s", len(b), short(s.String(), 200))
 		st.violation("forward:encoder-accepted-unrepresentable-value", what, rec(what, b, nil))
@@ -681,6 +691,8 @@ func exercise(st *stats, u *sergen.Universe, si int, s *sergen.Shape, nVals int,
 				st.count("boundary_uint256_cases", 2)
 			case "time":
 				st.count("boundary_time_cases", 2)
+			case "utf8":
+				st.count("boundary_utf8_cases/"+parts[1], 2)
 			}
 		}
 		for _, validation := range []bool{false, true} {
@@ -791,7 +803,10 @@ func run(c *vf.Ctx) {
 	}
 	c.Require("boundary_uint256_cases", 80)
 	c.Require("boundary_time_cases", 100)
-	c.Require("boundary_values", 200)
+	c.Require("boundary_values", 500)
+	c.Require("boundary_utf8_cases/valid", 300)
+	c.Require("boundary_utf8_cases/invalid", 150)
+	c.Require("boundary_utf8_cases/bounds-4..6", 20)
 	c.Require("reverse_reference_encodings_of_rejected_values", c.Pick(1000, 20000))
 	c.Require("arena_backed_custom_values_encoded", c.Pick(2000, 20000))
 	c.Require("arena_backed_custom_map_keys_encoded", c.Pick(500, 5000))
